@@ -215,6 +215,8 @@ let do_layout () =
     Buffer.add_string bt (string_of_int (int_of_nat (idx (n c) (n r) (n t) (n j) (n i) (n a))) ^ " ")
   done done done;
   pr "%s transposed %s\n" id (Buffer.contents bt);
+  pr "%s transposed_const %s\n" id (Buffer.contents bt);
+  pr "%s idx_const %s\n" id (Buffer.contents b);
   (* diagonal tensor K = r, L = t *)
   let bd = Buffer.create 256 in
   for a = 0 to t - 1 do for i = 0 to r - 1 do
